@@ -180,8 +180,9 @@ def lineCmtBody (cont : Bool) : Esc → Nat → List CP → Nat
   | .bs, n, c :: r =>
     if c == 10 then lineCmtBody cont .no (n + 1) r
     else if c == 13 then lineCmtBody cont .bscr (n + 1) r
-    else if c == 92 || isBlankWs c then lineCmtBody cont .bs (n + 1) r
-    else lineCmtBody cont .no (n + 1) r
+    else if c == 92 then lineCmtBody cont .bs (n + 1) r
+    else lineCmtBody cont .no (n + 1) r            -- ISO C: only backslash IMMEDIATELY before the line break splices; a blank after
+                                                   -- the backslash ends the escape (uncrustify keeps one such blank for that reason)
   | .bscr, n, c :: r =>
     if c == 10 then lineCmtBody cont .no (n + 1) r
     else if isNl c then n
